@@ -1065,6 +1065,9 @@ ModelPtr Importer::library(const size_t &index)
 
 bool Importer::addModel(const ModelPtr &model, const std::string &key)
 {
+    if (model == nullptr) {
+        return false;
+    }
     auto normalisedKey = normaliseDirectorySeparator(key);
     if (pFunc()->mLibrary.count(normalisedKey) != 0) {
         // If the key already exists in the library, do nothing.
